@@ -849,7 +849,7 @@ func runBinary(argv0, cwd, swConf, swBase string, envv map[string]string) (strin
 	text := stderr.String()
 	d := map[string]interface{}{"stderr": text, "stdout": stdout.String(), "err": fmt.Sprint(err)}
 	if err == nil {
-		return "", nil // base directories exist: nothing to compare
+		return "BRunOK", d // the configuration loaded and the base directories exist: no names shown
 	}
 	if !strings.HasPrefix(text, "Missing item(s):\n") {
 		return "BErr", d
@@ -861,7 +861,7 @@ func runBinary(argv0, cwd, swConf, swBase string, envv map[string]string) (strin
 		}
 	}
 	if len(dirs) != 3 {
-		return "", nil // some of them exist, or a value contains a newline
+		return "BRunOK", d // the configuration loaded; some of them exist, or a value contains a newline
 	}
 	return q.App("BDirs", q.Hx(dirs[0]), q.Hx(dirs[1]), q.Hx(dirs[2])), d
 }
